@@ -68,3 +68,5 @@ pub mod term;
 pub mod c1718;
 // QDLDL driver: iterative refinement trace, backend selection (C12)
 pub mod c12;
+// CSC count / fill helpers (C16)
+pub mod c16;
